@@ -199,6 +199,20 @@ func (f *Flooder) HandleRouteAdvertise(
 		Sequence:    sequence,
 	}
 
+	// The first entry of the seen-by list is the agent that put this
+	// advertisement into the mesh: the origin itself, or - for a full-table replay
+	// (SendFullTable) - the replaying agent, which numbers the replay from its own
+	// sequence counter. A replay's number therefore says nothing about the
+	// origin's numbering. It is deduplicated under the replaying agent's identity,
+	// so that it cannot shadow a genuine announcement of the origin that carries
+	// the same number, and its routes are stored with sequence 0, so that they
+	// fill gaps but never outrank what the origin announces itself.
+	routeSeq := sequence
+	if len(seenBy) > 0 && seenBy[0] != originAgent {
+		key.OriginAgent = seenBy[0]
+		routeSeq = 0
+	}
+
 	// Check if we've already seen this and mark as seen atomically
 	f.mu.Lock()
 	if existing, ok := f.seenCache[key]; ok {
@@ -306,7 +320,7 @@ func (f *Flooder) HandleRouteAdvertise(
 			// Agent presence route: 16-byte agent ID prefix
 			agentID := protocol.DecodeAgentPrefix(r.Prefix)
 			if agentID != (identity.AgentID{}) {
-				f.routeMgr.ProcessAgentRouteAdvertise(fromPeer, originAgent, sequence, agentID, path, encPath, r.Metric+1)
+				f.routeMgr.ProcessAgentRouteAdvertise(fromPeer, originAgent, routeSeq, agentID, path, encPath, r.Metric+1)
 			}
 		default:
 			// CIDR route (IPv4 or IPv6)
@@ -321,17 +335,17 @@ func (f *Flooder) HandleRouteAdvertise(
 
 	// Process CIDR routes in routing manager
 	if len(cidrEntries) > 0 {
-		f.routeMgr.ProcessRouteAdvertise(fromPeer, originAgent, sequence, cidrEntries, path, encPath)
+		f.routeMgr.ProcessRouteAdvertise(fromPeer, originAgent, routeSeq, cidrEntries, path, encPath)
 	}
 
 	// Process domain routes in routing manager
 	if len(domainEntries) > 0 {
-		f.routeMgr.ProcessDomainRouteAdvertise(fromPeer, originAgent, sequence, domainEntries, path, encPath)
+		f.routeMgr.ProcessDomainRouteAdvertise(fromPeer, originAgent, routeSeq, domainEntries, path, encPath)
 	}
 
 	// Process forward routes in routing manager
 	if len(forwardEntries) > 0 {
-		f.routeMgr.ProcessForwardRouteAdvertise(fromPeer, originAgent, sequence, forwardEntries, path, encPath)
+		f.routeMgr.ProcessForwardRouteAdvertise(fromPeer, originAgent, routeSeq, forwardEntries, path, encPath)
 	}
 
 	// Flood to other peers (forward encrypted path as-is)
